@@ -440,4 +440,825 @@ theorem mem_dropLast_of_tail {α} (x : α) (r : List α) (y : α) (h : y ∈ r.d
   | nil => simp at h
   | cons z zs => simp [List.dropLast] at h ⊢; right; exact h
 
+
+/-! ### the invariant is inductive -/
+
+theorem get_set {l : List W} {w : Nat} {old : W} (h : l[w]? = some old) (x : W) (w' : Nat) :
+    (l.set w x)[w']? = if w' = w then some x else l[w']? := by
+  have hlt : w < l.length := by
+    rcases Nat.lt_or_ge w l.length with h' | h'
+    · exact h'
+    · rw [List.getElem?_eq_none h'] at h; simp at h
+  rw [List.getElem?_set]
+  by_cases hw : w = w'
+  · subst hw; simp [hlt]
+  · have : ¬ w' = w := fun h => hw h.symm
+    simp [hw, this]
+theorem wsums {l : List W} {w : Nat} {old : W} (h : l[w]? = some old) (x : W) (g : W → Nat) :
+    sumOver g (l.set w x) + g old = sumOver g l + g x := sumOver_set g l w old x h
+
+/-- `ev` survives any step of a lineage that is not `spawned` -/
+theorem ev_set {c : Cfg} {s : State} (hI : Inv c s) {w : Nat} {old : W} (hw : s.ws[w]? = some old)
+    (hold : old ≠ .spawned) (x : W) :
+    s.main = .waitEvent → s.event = false → (s.ws.set w x)[0]? = some W.spawned := by
+  intro hm he
+  have h0 := hI.ev hm he
+  rw [get_set hw]
+  by_cases h : 0 = w
+  · subst h; rw [hw] at h0; simp at h0; exact absurd h0 hold
+  · simp [h, h0]
+
+theorem oCount_append (o : Nat) (a b : List (Option Nat)) : oCount o (a ++ b) = oCount o a + oCount o b := by
+  simp [oCount]
+
+
+theorem oCount_none (o : Nat) (q : List (Option Nat)) (h : ∀ x ∈ q, x = none) : oCount o q = 0 := by
+  unfold oCount
+  rw [sumOver_eq_zero]
+  intro x hx; rw [h x hx]; simp
+
+
+theorem inv_init' (c : Cfg) (hn : 0 < c.n) : Inv c (init c) := by
+  refine { npos := hn, len := by simp [init], np := ?_, ev := ?_, outC := ?_, errC := ?_, lph0 := ?_, lph1 := ?_,
+           sorted := trivial, pois := ?_, pills := ?_, opill := ?_, olast := ?_, q := ?_, fin := ?_, maxk := ?_, aband := ?_, drops := ?_ }
+  · simp [init, sumOver_replicate, alive]
+  · intro _ _
+    simp only [init]
+    cases hc : c.n with
+    | zero => omega
+    | succ k => simp [List.replicate_succ]
+  · intro o
+    simp [outTotal, init, inSide, oCount, sumOver_replicate, wOuts, sumOver_map, elemOuts]
+  · intro e
+    simp [errTotal, init, inSide, sumOver_replicate, wErrs, sumOver_map, elemErrs]
+  · intro _; simp [init]
+  · intro h; simp [init] at h
+  · intro w h
+    simp only [init] at h
+    rcases h with ⟨e, h⟩ | ⟨h, _⟩ <;>
+    · have := mem_of_getElem? h
+      simp at this
+  · intro _ h; simp [init] at h
+  · simp [init]
+  · simp [init]
+  · intro _ h
+    simp [init] at h; omega
+  · intro h; simp [init, State.active] at h
+  · intro _ w k p e h
+    have := mem_of_getElem? h
+    simp [init] at this
+  · simp [init]
+  · intro _; simp [init]
+
+theorem inv_loadTake (c : Cfg) (s : State) (hI : Inv c s) (h : enabled c s .loadTake = true) :
+    Inv c (step c s .loadTake) := by
+  simp only [enabled, Bool.and_eq_true] at h
+  obtain ⟨⟨h1, h2⟩, h3⟩ := h
+  have hi : s.infl = none := by simpa using h1
+  cases ht : s.todo with
+  | nil => simp [ht] at h3
+  | cons x rest =>
+  simp only [step, ht]
+  refine { npos := hI.npos, len := hI.len, np := hI.np, ev := hI.ev, outC := ?_, errC := ?_, lph0 := ?_, lph1 := ?_,
+           sorted := hI.sorted, pois := hI.pois, pills := ?_, opill := hI.opill, olast := hI.olast, q := hI.q,
+           fin := hI.fin, maxk := hI.maxk, aband := hI.aband, drops := hI.drops }
+  · intro o
+    have := hI.outC o
+    simp only [outTotal, inSide, hi, ht] at this ⊢
+    simp at this ⊢; omega
+  · intro e
+    have := hI.errC e
+    simp only [errTotal, inSide, hi, ht] at this ⊢
+    simp at this ⊢; omega
+  · intro hl
+    have := hI.lph0 hl
+    simp only [ht] at this
+    refine ⟨this.1, fun y hy => this.2.1 y (by simp [hy]), ?_⟩
+    simp
+    exact this.2.1 x (by simp)
+  · intro hl
+    have := hI.lph1 hl
+    simp only [ht] at this
+    refine ⟨fun y hy => this.1 y (by simp [hy]), ?_⟩
+    intro y hy
+    simp at hy; subst hy
+    exact this.1 x (by simp)
+  · intro ha hl
+    have := hI.pills ha hl
+    simp only [hi, ht] at this ⊢
+    simp at this ⊢; omega
+
+theorem inv_loadPut (c : Cfg) (s : State) (hI : Inv c s) (h : enabled c s .loadPut = true) :
+    Inv c (step c s .loadPut) := by
+  simp only [enabled, Bool.and_eq_true] at h
+  cases hi : s.infl with
+  | none => simp [hi] at h
+  | some x =>
+  simp only [step, hi]
+  refine { npos := hI.npos, len := hI.len, np := hI.np, ev := hI.ev, outC := ?_, errC := ?_, lph0 := ?_, lph1 := ?_,
+           sorted := ?_, pois := ?_, pills := ?_, opill := hI.opill, olast := hI.olast, q := hI.q,
+           fin := hI.fin, maxk := hI.maxk, aband := hI.aband, drops := hI.drops }
+  · intro o
+    have := hI.outC o
+    simp only [outTotal, inSide, hi] at this ⊢
+    simp at this ⊢; omega
+  · intro e
+    have := hI.errC e
+    simp only [errTotal, inSide, hi] at this ⊢
+    simp at this ⊢; omega
+  · intro hl
+    have := hI.lph0 hl
+    simp only [hi] at this
+    refine ⟨?_, this.2.1, by simp⟩
+    intro y hy
+    simp at hy
+    rcases hy with hy | hy
+    · exact this.1 y hy
+    · subst hy; intro hx; subst hx; exact this.2.2 rfl
+  · intro hl
+    have := hI.lph1 hl
+    exact ⟨this.1, by simp⟩
+  · cases hl : s.lphase with
+    | false =>
+      have := hI.lph0 hl
+      cases x with
+      | none => exact absurd (by rw [hi]) this.2.2
+      | some i => exact sortedQ_append_some _ _ this.1
+    | true =>
+      have := (hI.lph1 hl).2 x hi
+      subst this
+      exact sortedQ_append_none _ hI.sorted
+  · intro w hw
+    have := hI.pois w hw
+    refine ⟨this.1, ?_⟩
+    intro y hy
+    simp at hy
+    rcases hy with hy | hy
+    · exact this.2 y hy
+    · subst hy; exact (hI.lph1 this.1).2 _ hi
+  · intro ha hl
+    have := hI.pills ha hl
+    simp only [hi] at this ⊢
+    simp at this ⊢; omega
+
+theorem inv_loadFinish (c : Cfg) (s : State) (hI : Inv c s) (h : enabled c s .loadFinish = true) :
+    Inv c (step c s .loadFinish) := by
+  simp only [enabled, Bool.and_eq_true, Bool.or_eq_true] at h
+  obtain ⟨⟨h1, h2⟩, h3⟩ := h
+  have hl : s.lphase = false := by simpa using h1
+  have hi : s.infl = none := by simpa using h2
+  simp only [step]
+  refine { npos := hI.npos, len := hI.len, np := hI.np, ev := hI.ev, outC := ?_, errC := ?_, lph0 := ?_, lph1 := ?_,
+           sorted := hI.sorted, pois := ?_, pills := ?_, opill := hI.opill, olast := hI.olast, q := hI.q,
+           fin := hI.fin, maxk := hI.maxk, aband := hI.aband, drops := ?_ }
+  · intro o
+    have := hI.outC o
+    simp only [outTotal, inSide, hi] at this ⊢
+    simp [sumOver_replicate, elemOuts] at this ⊢; omega
+  · intro e
+    have := hI.errC e
+    simp only [errTotal, inSide, hi] at this ⊢
+    simp [sumOver_replicate, elemErrs] at this ⊢; omega
+  · intro h'; simp at h'
+  · intro _
+    refine ⟨?_, by simp [hi]⟩
+    intro y hy
+    simp at hy; exact hy.2
+  · intro w hw
+    have := (hI.pois w hw).1
+    rw [hl] at this; simp at this
+  · intro ha _
+    simp only [hi]
+    simp [sumOver_replicate, isPill]
+    have h1 := sumOver_mono needy alive s.ws alive_le_needy
+    have := hI.np
+    omega
+  · intro ha
+    have hd := hI.drops ha
+    have hst : s.stopped = false := by
+      simp only [State.active, State.stopped] at ha ⊢
+      cases hm : s.main <;> simp_all
+    rcases h3 with h3 | h3
+    · have : s.todo = [] := by simpa using h3
+      simp [hd.1, hd.2, this]
+    · rw [hst] at h3; simp at h3
+
+theorem inv_mEvent (c : Cfg) (s : State) (hI : Inv c s) (h : enabled c s .mEvent = true) :
+    Inv c (step c s .mEvent) := by
+  simp only [enabled, Bool.and_eq_true] at h
+  have hm : s.main = .waitEvent := by simpa using h.1
+  have hact : s.active = true := by simp [State.active, hm]
+  simp only [step]
+  refine { npos := hI.npos, len := hI.len, np := hI.np, ev := ?_, outC := hI.outC, errC := hI.errC, lph0 := hI.lph0, lph1 := hI.lph1,
+           sorted := hI.sorted, pois := hI.pois, pills := ?_, opill := hI.opill, olast := hI.olast, q := ?_,
+           fin := ?_, maxk := hI.maxk, aband := ?_, drops := ?_ }
+  · intro h'; simp at h'
+  · intro _ hl; exact hI.pills hact hl
+  · intro _ h0; exact hI.q hact h0
+  · intro h'; simp [State.active] at h'
+  · intro ha; have := hI.aband ha; rw [hact] at this; simp at this
+  · intro _; exact hI.drops hact
+
+theorem inv_cAbandon (c : Cfg) (s : State) (hI : Inv c s) (h : enabled c s .cAbandon = true) :
+    Inv c (step c s .cAbandon) := by
+  simp only [enabled] at h
+  have hm : s.main = .consuming := by simpa using h
+  simp only [step]
+  refine { npos := hI.npos, len := hI.len, np := hI.np, ev := ?_, outC := hI.outC, errC := hI.errC, lph0 := hI.lph0, lph1 := hI.lph1,
+           sorted := hI.sorted, pois := hI.pois, pills := ?_, opill := hI.opill, olast := hI.olast, q := ?_,
+           fin := ?_, maxk := hI.maxk, aband := ?_, drops := ?_ }
+  · intro h'; simp at h'
+  · intro h'; simp [State.active] at h'
+  · intro h'; simp [State.active] at h'
+  · intro _ h'; simp at h'
+  · intro _; simp [State.active]
+  · intro h'; simp [State.active] at h'
+
+theorem inv_mDone (c : Cfg) (s : State) (hI : Inv c s) (h : enabled c s .mDone = true) :
+    Inv c (step c s .mDone) := by
+  simp only [enabled] at h
+  have hm : s.main = .fin := by simpa using h
+  have hact : s.active = false := by simp [State.active, hm]
+  simp only [step]
+  refine { npos := hI.npos, len := hI.len, np := hI.np, ev := ?_, outC := hI.outC, errC := hI.errC, lph0 := hI.lph0, lph1 := hI.lph1,
+           sorted := hI.sorted, pois := hI.pois, pills := ?_, opill := hI.opill, olast := hI.olast, q := ?_,
+           fin := ?_, maxk := hI.maxk, aband := ?_, drops := ?_ }
+  · intro h'; simp at h'
+  · intro h'; simp [State.active] at h'
+  · intro h'; simp [State.active] at h'
+  · intro _ ha; exact hI.fin hact ha
+  · intro _; simp [State.active]
+  · intro h'; simp [State.active] at h'
+
+theorem inv_drainIn (c : Cfg) (s : State) (hI : Inv c s) (h : enabled c s .drainIn = true) :
+    Inv c (step c s .drainIn) := by
+  simp only [enabled, Bool.and_eq_true] at h
+  have hm : s.main = .fin := by simpa using h.1
+  have hact : s.active = false := by simp [State.active, hm]
+  cases hq : s.inq with
+  | nil => simp [hq] at h
+  | cons x rest =>
+  simp only [step, hq]
+  refine { npos := hI.npos, len := hI.len, np := hI.np, ev := hI.ev, outC := ?_, errC := ?_, lph0 := ?_, lph1 := hI.lph1,
+           sorted := ?_, pois := ?_, pills := ?_, opill := hI.opill, olast := hI.olast, q := ?_,
+           fin := hI.fin, maxk := hI.maxk, aband := hI.aband, drops := ?_ }
+  · intro o
+    have := hI.outC o
+    simp only [outTotal, inSide, hq] at this ⊢
+    simp at this ⊢; omega
+  · intro e
+    have := hI.errC e
+    simp only [errTotal, inSide, hq] at this ⊢
+    simp at this ⊢; omega
+  · intro hl
+    have := hI.lph0 hl
+    rw [hq] at this
+    exact ⟨fun y hy => this.1 y (by simp [hy]), this.2⟩
+  · have := hI.sorted; rw [hq] at this; exact sortedQ_tail this
+  · intro w hw
+    have := hI.pois w hw
+    rw [hq] at this
+    exact ⟨this.1, fun y hy => this.2 y (by simp [hy])⟩
+  · intro h'; rw [State.active] at h' hact; simp_all
+  · intro h'; rw [State.active] at h' hact; simp_all
+  · intro h'; rw [State.active] at h' hact; simp_all
+
+theorem inv_drainOut (c : Cfg) (s : State) (hI : Inv c s) (h : enabled c s .drainOut = true) :
+    Inv c (step c s .drainOut) := by
+  simp only [enabled, Bool.and_eq_true] at h
+  have hm : s.main = .fin := by simpa using h.1
+  have hact : s.active = false := by simp [State.active, hm]
+  cases hq : s.outq with
+  | nil => simp [hq] at h
+  | cons x rest =>
+  simp only [step, hq]
+  refine { npos := hI.npos, len := hI.len, np := hI.np, ev := hI.ev, outC := ?_, errC := hI.errC, lph0 := hI.lph0, lph1 := hI.lph1,
+           sorted := hI.sorted, pois := hI.pois, pills := ?_, opill := ?_, olast := ?_, q := ?_,
+           fin := hI.fin, maxk := hI.maxk, aband := hI.aband, drops := ?_ }
+  · intro o
+    have := hI.outC o
+    simp only [outTotal, inSide, hq, oCount] at this ⊢
+    simp at this ⊢; omega
+  · intro h'; rw [State.active] at h' hact; simp_all
+  · intro hn; exact hI.opill (by rw [hq]; simp [hn])
+  · intro y hy
+    have := hI.olast y
+    rw [hq] at this
+    exact this (mem_dropLast_of_tail x rest y hy)
+  · intro h'; rw [State.active] at h' hact; simp_all
+  · intro h'; rw [State.active] at h' hact; simp_all
+
+theorem inv_cGet (c : Cfg) (s : State) (hI : Inv c s) (h : enabled c s .cGet = true) :
+    Inv c (step c s .cGet) := by
+  simp only [enabled, Bool.and_eq_true] at h
+  have hm : s.main = .consuming := by simpa using h.1
+  have hact : s.active = true := by simp [State.active, hm]
+  cases hq : s.outq with
+  | nil => simp [hq] at h
+  | cons x rest =>
+  cases x with
+  | some o =>
+    simp only [step, hq]
+    refine { npos := hI.npos, len := hI.len, np := hI.np, ev := hI.ev, outC := ?_, errC := hI.errC, lph0 := hI.lph0, lph1 := hI.lph1,
+             sorted := hI.sorted, pois := hI.pois, pills := hI.pills, opill := ?_, olast := ?_, q := ?_,
+             fin := ?_, maxk := hI.maxk, aband := hI.aband, drops := hI.drops }
+    · intro o'
+      have := hI.outC o'
+      simp only [outTotal, inSide, hq, oCount] at this ⊢
+      simp [List.count_append] at this ⊢
+      by_cases ho : o = o'
+      · subst ho; simp at this ⊢; omega
+      · have h1 : ¬ (o' = o) := fun h => ho h.symm
+        simp [ho] at this ⊢; omega
+    · intro hn; exact hI.opill (by rw [hq]; simp [hn])
+    · intro y hy
+      have := hI.olast y
+      rw [hq] at this
+      exact this (mem_dropLast_of_tail _ rest y hy)
+    · intro ha h0
+      have := hI.q ha h0
+      rw [hq] at this
+      simpa using this
+    · intro h'; rw [State.active] at h' hact; simp_all
+  | none =>
+    simp only [step, hq]
+    have h0 : s.nprocs = 0 := hI.opill (by rw [hq]; simp)
+    have hrest : rest = [] := by
+      cases rest with
+      | nil => rfl
+      | cons z zs =>
+        have := hI.olast none (by rw [hq]; simp [List.dropLast])
+        exact absurd rfl this
+    refine { npos := hI.npos, len := hI.len, np := hI.np, ev := ?_, outC := ?_, errC := hI.errC, lph0 := hI.lph0, lph1 := hI.lph1,
+             sorted := hI.sorted, pois := hI.pois, pills := ?_, opill := ?_, olast := ?_, q := ?_,
+             fin := ?_, maxk := hI.maxk, aband := ?_, drops := ?_ }
+    · intro h'; simp at h'
+    · intro o'
+      have := hI.outC o'
+      simp only [outTotal, inSide, hq, oCount] at this ⊢
+      simp at this ⊢; omega
+    · intro h'; simp [State.active] at h'
+    · intro _; exact h0
+    · subst hrest; simp
+    · intro h'; simp [State.active] at h'
+    · intro _ hab
+      refine ⟨h0, ?_⟩
+      intro hex
+      have hex : s.excs = [] := hex
+      have hdead := all_dead_of_nprocs_zero hI h0
+      have hlen := hI.len
+      have hnp := hI.npos
+      have h0w : s.ws[0]? = some .dead := by
+        cases hws : s.ws with
+        | nil => rw [hws] at hlen; simp at hlen; omega
+        | cons w0 wr =>
+          have := hdead w0 (by rw [hws]; simp)
+          subst this; simp
+      have hp := hI.pois 0 (Or.inr ⟨h0w, hex⟩)
+      have hl1 := hI.lph1 hp.1
+      have hd := hI.drops hact
+      have hwo : ∀ o', sumOver (fun w => (wOuts w).count o') s.ws = 0 := by
+        intro o'
+        rw [sumOver_eq_zero]
+        intro w hw; rw [hdead w hw]; simp [wOuts]
+      have hwe : ∀ e, sumOver (fun w => (wErrs w).count e) s.ws = 0 := by
+        intro e
+        rw [sumOver_eq_zero]
+        intro w hw; rw [hdead w hw]; simp [wErrs]
+      have hin : ∀ x ∈ inSide s, x = none := by
+        intro x hx
+        simp only [inSide, hd.1, List.append_nil, List.mem_append] at hx
+        rcases hx with (hx | hx) | hx
+        · exact hp.2 x hx
+        · cases hi : s.infl with
+          | none => rw [hi] at hx; simp at hx
+          | some y =>
+            rw [hi] at hx; simp at hx; subst hx
+            exact hl1.2 _ hi
+        · exact hl1.1 x hx
+      have hio : ∀ o', sumOver (fun x => (elemOuts x).count o') (inSide s) = 0 := by
+        intro o'
+        rw [sumOver_eq_zero]
+        intro x hx; rw [hin x hx]; simp [elemOuts]
+      have hie : ∀ e, sumOver (fun x => (elemErrs x).count e) (inSide s) = 0 := by
+        intro e
+        rw [sumOver_eq_zero]
+        intro x hx; rw [hin x hx]; simp [elemErrs]
+      constructor
+      · intro o'
+        have := hI.outC o'
+        simp only [outTotal, hq, hrest, hd.2, hwo, hio, oCount] at this
+        simp at this
+        exact this
+      · intro x hx
+        cases he : x.err with
+        | none => rfl
+        | some e =>
+          have := hI.errC e
+          simp only [errTotal, hwe, hie, hex] at this
+          have h2 := sumOver_le_of_mem (fun x => x.err.toList.count e) c.items x hx
+          simp only [he] at h2
+          simp at h2 this
+          omega
+    · intro hab
+      simp [State.active]
+    · intro h'; simp [State.active] at h'
+
+theorem inv_wBegin (c : Cfg) (s : State) (w : Nat) (hI : Inv c s) (h : enabled c s (.wBegin w) = true) :
+    Inv c (step c s (.wBegin w)) := by
+  obtain ⟨hw, hw0⟩ := en_wBegin h
+  simp only [step]
+  refine { npos := hI.npos, len := by simp [hI.len], np := ?_, ev := ?_, outC := ?_, errC := ?_, lph0 := hI.lph0, lph1 := hI.lph1,
+           sorted := hI.sorted, pois := ?_, pills := ?_, opill := hI.opill, olast := hI.olast, q := hI.q,
+           fin := hI.fin, maxk := ?_, aband := hI.aband, drops := hI.drops }
+  · have := wsums hw (.run 0 [] none) alive
+    have := hI.np
+    simp [alive] at *; omega
+  · intro _ h'; simp at h'
+  · intro o
+    have := hI.outC o
+    have h2 := wsums hw (.run 0 [] none) (fun w => (wOuts w).count o)
+    simp only [outTotal, inSide] at this ⊢
+    simp [wOuts] at h2 this ⊢; omega
+  · intro e
+    have := hI.errC e
+    have h2 := wsums hw (.run 0 [] none) (fun w => (wErrs w).count e)
+    simp only [errTotal, inSide] at this ⊢
+    simp [wErrs] at h2 this ⊢; omega
+  · intro w' hp
+    simp only [get_set hw] at hp
+    by_cases hww : w' = w
+    · simp [hww] at hp
+    · simp only [hww, if_false] at hp
+      exact hI.pois w' hp
+  · intro ha hl
+    have := hI.pills ha hl
+    have h2 := wsums hw (.run 0 [] none) needy
+    simp [needy] at h2 this ⊢; omega
+  · intro hm w' k p e hr
+    simp only [get_set hw] at hr
+    by_cases hww : w' = w
+    · simp [hww] at hr; omega
+    · simp only [hww, if_false] at hr
+      exact hI.maxk hm w' k p e hr
+
+theorem inv_wPut (c : Cfg) (s : State) (w : Nat) (hI : Inv c s) (h : enabled c s (.wPut w) = true) :
+    Inv c (step c s (.wPut w)) := by
+  obtain ⟨k, o, pend, e, hw⟩ := en_wPut h
+  have hpos := alive_pos_of_get hI hw (by simp)
+  have hnone : none ∉ s.outq := fun hn => by have := hI.opill hn; omega
+  simp only [step, hw]
+  refine { npos := hI.npos, len := by simp [hI.len], np := ?_, ev := ev_set hI hw (by simp) _, outC := ?_, errC := ?_,
+           lph0 := hI.lph0, lph1 := hI.lph1,
+           sorted := hI.sorted, pois := ?_, pills := ?_, opill := ?_, olast := ?_, q := ?_,
+           fin := hI.fin, maxk := ?_, aband := hI.aband, drops := hI.drops }
+  · have := wsums hw (.run k pend e) alive
+    have := hI.np
+    simp [alive] at *; omega
+  · intro o'
+    have := hI.outC o'
+    have h2 := wsums hw (.run k pend e) (fun w => (wOuts w).count o')
+    simp only [outTotal, inSide, oCount_append] at this ⊢
+    simp [wOuts, oCount, List.count_cons] at h2 this ⊢
+    by_cases ho : o = o'
+    · subst ho; simp at h2 ⊢; omega
+    · simp [ho] at h2 ⊢; omega
+  · intro e'
+    have := hI.errC e'
+    have h2 := wsums hw (.run k pend e) (fun w => (wErrs w).count e')
+    simp only [errTotal, inSide] at this ⊢
+    simp [wErrs] at h2 this ⊢; omega
+  · intro w' hp
+    simp only [get_set hw] at hp
+    by_cases hww : w' = w
+    · simp [hww] at hp
+    · simp only [hww, if_false] at hp
+      exact hI.pois w' hp
+  · intro ha hl
+    have := hI.pills ha hl
+    have h2 := wsums hw (.run k pend e) needy
+    simp [needy] at h2 this ⊢; omega
+  · intro hn
+    simp at hn
+    exact absurd hn hnone
+  · intro y hy
+    simp at hy
+    intro hyn; subst hyn; exact hnone hy
+  · intro _ h0
+    have h0 : s.nprocs = 0 := h0
+    omega
+  · intro hm w' k' p' e' hr
+    simp only [get_set hw] at hr
+    by_cases hww : w' = w
+    · simp [hww] at hr
+      exact hr.1 ▸ hI.maxk hm w k _ e hw
+    · simp only [hww, if_false] at hr
+      exact hI.maxk hm w' k' p' e' hr
+
+theorem inv_wRaise (c : Cfg) (s : State) (w : Nat) (hI : Inv c s) (h : enabled c s (.wRaise w) = true) :
+    Inv c (step c s (.wRaise w)) := by
+  obtain ⟨k, e, hw⟩ := en_wRaise h
+  simp only [step, hw]
+  refine { npos := hI.npos, len := by simp [hI.len], np := ?_, ev := ev_set hI hw (by simp) _, outC := ?_, errC := ?_,
+           lph0 := hI.lph0, lph1 := hI.lph1,
+           sorted := hI.sorted, pois := ?_, pills := ?_, opill := hI.opill, olast := hI.olast, q := hI.q,
+           fin := hI.fin, maxk := ?_, aband := hI.aband, drops := hI.drops }
+  · have := wsums hw (.exited false (some e)) alive
+    have := hI.np
+    simp [alive] at *; omega
+  · intro o'
+    have := hI.outC o'
+    have h2 := wsums hw (.exited false (some e)) (fun w => (wOuts w).count o')
+    simp only [outTotal, inSide] at this ⊢
+    simp [wOuts] at h2 this ⊢; omega
+  · intro e'
+    have := hI.errC e'
+    have h2 := wsums hw (.exited false (some e)) (fun w => (wErrs w).count e')
+    simp only [errTotal, inSide] at this ⊢
+    simp [wErrs] at h2 this ⊢; omega
+  · intro w' hp
+    simp only [get_set hw] at hp
+    by_cases hww : w' = w
+    · simp [hww] at hp
+    · simp only [hww, if_false] at hp
+      exact hI.pois w' hp
+  · intro ha hl
+    have := hI.pills ha hl
+    have h2 := wsums hw (.exited false (some e)) needy
+    simp [needy] at h2 this ⊢; omega
+  · intro hm w' k' p' e' hr
+    simp only [get_set hw] at hr
+    by_cases hww : w' = w
+    · simp [hww] at hr
+    · simp only [hww, if_false] at hr
+      exact hI.maxk hm w' k' p' e' hr
+
+theorem inv_wRetire (c : Cfg) (s : State) (w : Nat) (hI : Inv c s) (h : enabled c s (.wRetire w) = true) :
+    Inv c (step c s (.wRetire w)) := by
+  obtain ⟨k, hw, _⟩ := en_wRetire h
+  simp only [step]
+  refine { npos := hI.npos, len := by simp [hI.len], np := ?_, ev := ev_set hI hw (by simp) _, outC := ?_, errC := ?_,
+           lph0 := hI.lph0, lph1 := hI.lph1,
+           sorted := hI.sorted, pois := ?_, pills := ?_, opill := hI.opill, olast := hI.olast, q := hI.q,
+           fin := hI.fin, maxk := ?_, aband := hI.aband, drops := hI.drops }
+  · have := wsums hw (.exited false none) alive
+    have := hI.np
+    simp [alive] at *; omega
+  · intro o'
+    have := hI.outC o'
+    have h2 := wsums hw (.exited false none) (fun w => (wOuts w).count o')
+    simp only [outTotal, inSide] at this ⊢
+    simp [wOuts] at h2 this ⊢; omega
+  · intro e'
+    have := hI.errC e'
+    have h2 := wsums hw (.exited false none) (fun w => (wErrs w).count e')
+    simp only [errTotal, inSide] at this ⊢
+    simp [wErrs] at h2 this ⊢; omega
+  · intro w' hp
+    simp only [get_set hw] at hp
+    by_cases hww : w' = w
+    · simp [hww] at hp
+    · simp only [hww, if_false] at hp
+      exact hI.pois w' hp
+  · intro ha hl
+    have := hI.pills ha hl
+    have h2 := wsums hw (.exited false none) needy
+    simp [needy] at h2 this ⊢; omega
+  · intro hm w' k' p' e' hr
+    simp only [get_set hw] at hr
+    by_cases hww : w' = w
+    · simp [hww] at hr
+    · simp only [hww, if_false] at hr
+      exact hI.maxk hm w' k' p' e' hr
+
+theorem inv_wGet (c : Cfg) (s : State) (w : Nat) (hI : Inv c s) (h : enabled c s (.wGet w) = true) :
+    Inv c (step c s (.wGet w)) := by
+  obtain ⟨k, x, rest, hw, hk, hq⟩ := en_wGet h
+  cases x with
+  | some x =>
+    simp only [step, hw, hq]
+    refine { npos := hI.npos, len := by simp [hI.len], np := ?_, ev := ev_set hI hw (by simp) _, outC := ?_, errC := ?_,
+             lph0 := ?_, lph1 := hI.lph1,
+             sorted := ?_, pois := ?_, pills := ?_, opill := hI.opill, olast := hI.olast, q := hI.q,
+             fin := hI.fin, maxk := ?_, aband := hI.aband, drops := hI.drops }
+    · have := wsums hw (.run (k+1) x.outs x.err) alive
+      have := hI.np
+      simp [alive] at *; omega
+    · intro o'
+      have := hI.outC o'
+      have h2 := wsums hw (.run (k+1) x.outs x.err) (fun w => (wOuts w).count o')
+      simp only [outTotal, inSide, hq] at this ⊢
+      simp [wOuts, elemOuts] at h2 this ⊢; omega
+    · intro e'
+      have := hI.errC e'
+      have h2 := wsums hw (.run (k+1) x.outs x.err) (fun w => (wErrs w).count e')
+      simp only [errTotal, inSide, hq] at this ⊢
+      simp [wErrs, elemErrs] at h2 this ⊢; omega
+    · intro hl
+      have := hI.lph0 hl
+      rw [hq] at this
+      exact ⟨fun y hy => this.1 y (by simp [hy]), this.2⟩
+    · have := hI.sorted; rw [hq] at this; exact sortedQ_tail this
+    · intro w' hp
+      simp only [get_set hw] at hp
+      by_cases hww : w' = w
+      · simp [hww] at hp
+      · simp only [hww, if_false] at hp
+        have := hI.pois w' hp
+        rw [hq] at this
+        exact ⟨this.1, fun y hy => this.2 y (by simp [hy])⟩
+    · intro ha hl
+      have := hI.pills ha hl
+      have h2 := wsums hw (.run (k+1) x.outs x.err) needy
+      rw [hq] at this
+      simp [needy, isPill] at h2 this ⊢; omega
+    · intro hm w' k' p' e' hr
+      simp only [get_set hw] at hr
+      by_cases hww : w' = w
+      · simp [hww] at hr
+        simp [mayTake] at hk
+        omega
+      · simp only [hww, if_false] at hr
+        exact hI.maxk hm w' k' p' e' hr
+  | none =>
+    simp only [step, hw, hq]
+    have hl : s.lphase = true := by
+      cases hl : s.lphase with
+      | true => rfl
+      | false =>
+        have := (hI.lph0 hl).1 none (by rw [hq]; simp)
+        exact absurd rfl this
+    have hrest : ∀ y ∈ rest, y = none := by
+      have := hI.sorted; rw [hq] at this; exact this
+    refine { npos := hI.npos, len := by simp [hI.len], np := ?_, ev := ev_set hI hw (by simp) _, outC := ?_, errC := ?_,
+             lph0 := ?_, lph1 := hI.lph1,
+             sorted := sortedQ_of_all_none _ hrest, pois := ?_, pills := ?_, opill := hI.opill, olast := hI.olast, q := hI.q,
+             fin := hI.fin, maxk := ?_, aband := hI.aband, drops := hI.drops }
+    · have := wsums hw (.exited true none) alive
+      have := hI.np
+      simp [alive] at *; omega
+    · intro o'
+      have := hI.outC o'
+      have h2 := wsums hw (.exited true none) (fun w => (wOuts w).count o')
+      simp only [outTotal, inSide, hq] at this ⊢
+      simp [wOuts, elemOuts] at h2 this ⊢; omega
+    · intro e'
+      have := hI.errC e'
+      have h2 := wsums hw (.exited true none) (fun w => (wErrs w).count e')
+      simp only [errTotal, inSide, hq] at this ⊢
+      simp [wErrs, elemErrs] at h2 this ⊢; omega
+    · intro hl'; rw [hl] at hl'; simp at hl'
+    · intro w' _
+      exact ⟨hl, hrest⟩
+    · intro ha _
+      have := hI.pills ha hl
+      have h2 := wsums hw (.exited true none) needy
+      rw [hq] at this
+      simp [needy, isPill] at h2 this ⊢; omega
+    · intro hm w' k' p' e' hr
+      simp only [get_set hw] at hr
+      by_cases hww : w' = w
+      · simp [hww] at hr
+      · simp only [hww, if_false] at hr
+        exact hI.maxk hm w' k' p' e' hr
+
+theorem inv_wCallback (c : Cfg) (s : State) (w : Nat) (hI : Inv c s) (h : enabled c s (.wCallback w) = true) :
+    Inv c (step c s (.wCallback w)) := by
+  obtain ⟨p, e, hw⟩ := en_wCallback h
+  have hpos := alive_pos_of_get hI hw (by simp)
+  have hnone : none ∉ s.outq := fun hn => by have := hI.opill hn; omega
+  simp only [step, hw]
+  split
+  · rename_i hc
+    simp only [Bool.and_eq_true, Bool.not_eq_true', List.isEmpty_iff, List.append_eq_nil_iff] at hc
+    obtain ⟨hp, hex, he⟩ := hc
+    have he' : e = none := by cases e <;> simp at he ⊢
+    subst hp he'
+    simp only [Option.toList, List.append_nil]
+    refine { npos := hI.npos, len := by simp [hI.len], np := ?_, ev := ev_set hI hw (by simp) _, outC := ?_, errC := ?_,
+             lph0 := hI.lph0, lph1 := hI.lph1,
+             sorted := hI.sorted, pois := ?_, pills := ?_, opill := hI.opill, olast := hI.olast, q := hI.q,
+             fin := hI.fin, maxk := ?_, aband := hI.aband, drops := hI.drops }
+    · have := wsums hw .spawned alive
+      have := hI.np
+      simp [alive] at *; omega
+    · intro o'
+      have := hI.outC o'
+      have h2 := wsums hw .spawned (fun w => (wOuts w).count o')
+      simp only [outTotal, inSide] at this ⊢
+      simp [wOuts] at h2 this ⊢; omega
+    · intro e'
+      have := hI.errC e'
+      have h2 := wsums hw .spawned (fun w => (wErrs w).count e')
+      simp only [errTotal, inSide] at this ⊢
+      simp [wErrs] at h2 this ⊢; omega
+    · intro w' hp
+      simp only [get_set hw] at hp
+      by_cases hww : w' = w
+      · simp [hww] at hp
+      · simp only [hww, if_false] at hp
+        exact hI.pois w' hp
+    · intro ha hl
+      have := hI.pills ha hl
+      have h2 := wsums hw .spawned needy
+      simp [needy] at h2 this ⊢; omega
+    · intro hm w' k' p' e' hr
+      simp only [get_set hw] at hr
+      by_cases hww : w' = w
+      · simp [hww] at hr
+      · simp only [hww, if_false] at hr
+        exact hI.maxk hm w' k' p' e' hr
+  · rename_i hc
+    have hc' : p = true ∨ s.excs ++ e.toList ≠ [] := by
+      cases p with
+      | true => left; rfl
+      | false =>
+        right; intro hnil
+        apply hc; simp [hnil]
+    refine { npos := hI.npos, len := by simp [hI.len], np := ?_, ev := ev_set hI hw (by simp) _, outC := ?_, errC := ?_,
+             lph0 := hI.lph0, lph1 := hI.lph1,
+             sorted := hI.sorted, pois := ?_, pills := ?_, opill := ?_, olast := ?_, q := ?_,
+             fin := ?_, maxk := ?_, aband := hI.aband, drops := hI.drops }
+    · have := wsums hw .dead alive
+      have := hI.np
+      simp [alive] at *; omega
+    · intro o'
+      have := hI.outC o'
+      have h2 := wsums hw .dead (fun w => (wOuts w).count o')
+      simp only [outTotal, inSide] at this ⊢
+      by_cases hz : s.nprocs - 1 = 0
+      · simp [hz, wOuts, oCount] at h2 this ⊢; omega
+      · simp [hz, wOuts, oCount] at h2 this ⊢; omega
+    · intro e'
+      have := hI.errC e'
+      have h2 := wsums hw .dead (fun w => (wErrs w).count e')
+      simp only [errTotal, inSide] at this ⊢
+      simp [wErrs, List.count_append] at h2 this ⊢; omega
+    · intro w' hp
+      simp only [get_set hw] at hp
+      by_cases hww : w' = w
+      · simp [hww] at hp
+        obtain ⟨hex, he⟩ := hp
+        rcases hc' with hp1 | hne
+        · subst hp1; exact hI.pois w (Or.inl ⟨e, hw⟩)
+        · exact absurd (by simp [hex, he]) hne
+      · simp only [hww, if_false] at hp
+        rcases hp with hp | ⟨hd, hex⟩
+        · exact hI.pois w' (Or.inl hp)
+        · simp at hex
+          exact hI.pois w' (Or.inr ⟨hd, hex.1⟩)
+    · intro ha hl
+      have := hI.pills ha hl
+      have h2 := wsums hw .dead needy
+      simp [needy] at h2 this ⊢; omega
+    · intro _
+      by_cases hz : s.nprocs - 1 = 0
+      · exact hz
+      · have : s.nprocs - 1 = 0 := by
+          rename_i hn
+          simp [hz] at hn
+          exact absurd hn hnone
+        exact this
+    · by_cases hz : s.nprocs - 1 = 0
+      · simp [hz]
+        intro y hy hyn; subst hyn; exact hnone hy
+      · simp [hz]; exact hI.olast
+    · intro _ h0
+      have h0 : s.nprocs - 1 = 0 := h0
+      simp [h0]
+    · intro ha hab
+      have := (hI.fin ha hab).1
+      omega
+    · intro hm w' k' p' e' hr
+      simp only [get_set hw] at hr
+      by_cases hww : w' = w
+      · simp [hww] at hr
+      · simp only [hww, if_false] at hr
+        exact hI.maxk hm w' k' p' e' hr
+
+/-- the invariant is inductive -/
+theorem inv_step' (c : Cfg) (s : State) (a : Action) (hI : Inv c s) (h : enabled c s a = true) :
+    Inv c (step c s a) := by
+  cases a with
+  | loadTake => exact inv_loadTake c s hI h
+  | loadPut => exact inv_loadPut c s hI h
+  | loadFinish => exact inv_loadFinish c s hI h
+  | wBegin w => exact inv_wBegin c s w hI h
+  | wGet w => exact inv_wGet c s w hI h
+  | wPut w => exact inv_wPut c s w hI h
+  | wRaise w => exact inv_wRaise c s w hI h
+  | wRetire w => exact inv_wRetire c s w hI h
+  | wCallback w => exact inv_wCallback c s w hI h
+  | mEvent => exact inv_mEvent c s hI h
+  | cGet => exact inv_cGet c s hI h
+  | cAbandon => exact inv_cAbandon c s hI h
+  | drainIn => exact inv_drainIn c s hI h
+  | drainOut => exact inv_drainOut c s hI h
+  | mDone => exact inv_mDone c s hI h
+
+theorem inv_reachable' (c : Cfg) (hn : 0 < c.n) (s : State) (h : Reachable c s) : Inv c s := by
+  induction h with
+  | init => exact inv_init' c hn
+  | step _ he ih => exact inv_step' c _ _ ih he
+
 end Coba.C08
